@@ -540,6 +540,54 @@ def l13(ctx, rid):
     c10.b10(ctx, rid)
 
 
+def l14(ctx, rid):
+    """the running worker is never lost by a state transition of the observer: where the observer state is moved out
+    (mem::replace / mem::take of `state`), only a `Created` state may be consumed on a path that returns normally.  If any other
+    old state (Running(sender, handle)) can reach a return, its Sender is dropped there: the worker drains its queue and exits,
+    and every later request - rotation, index dumps, *_in_background - is only logged as 'observer not launched'."""
+    prog = ctx.prog
+    adt = prog.adts.get('storage::observer::ObserverState')
+    if adt is None:
+        raise core.AnchorLost('storage::observer::ObserverState')
+    names = [v['name'] for v in adt['variants']]
+    created = names.index('Created')
+    n = 0
+    for f in prog.fns.values():
+        if f.file != 'src/storage/observer.rs':
+            continue
+        for c in f.calls:
+            if c.bb not in f.reachable() or c.path not in ('std::mem::replace', 'std::mem::take'):
+                continue
+            if prims.field_of_receiver(f, c)[-1:] != ['state'] and 'ObserverState' not in f.locals[c.dest[0]]['s']:
+                continue
+            n += 1
+            key = 'old-state-not-dropped|%s' % prog.fns[f.id].root
+            carry = core.flows_forward(f, c.dest[0])
+            other_edges = []
+            found = False
+            for i in f.reachable():
+                t = f.blocks[i]['t']
+                if t['k'] != 'switch':
+                    continue
+                for (bb, si, kind, r) in f.defs().get(op_local(t['o']), []):
+                    if kind == 'assign' and r['k'] == 'discr' and r['p'][0] in carry:
+                        found = True
+                        for v, tg in t['vals']:
+                            if v != created:
+                                other_edges.append(tg)
+                        if created in [v for v, _ in t['vals']]:
+                            other_edges.append(t['otherwise'])
+            rets = [i for i in f.reachable() if f.blocks[i]['t']['k'] == 'return']
+            if not found:
+                ctx.bad(rid, key, c.where(), 'the observer state is moved out without being matched')
+            elif any(r in f.reach_from(other_edges) for r in rets):
+                ctx.bad(rid, key, c.where(), 'an old observer state other than Created can reach a normal return after it was moved out of `self.state`: a Running state (second init / launch) is dropped there together with its Sender - the worker exits and background maintenance stops for the rest of the session')
+            else:
+                ctx.ok(rid, key, c.where(), 'only a Created state is consumed; every other old state diverges')
+    if n < 1:
+        raise core.AnchorLost('moves of the observer state: %d' % n)
+
+
 RULES = [
     Rule('C13.L1', 'the worker loop is only left through the Stop arm (recv() == None) and contains no reachable panic written in the worker module', l1, 4),
     Rule('C13.L3', 'one channel, Sender never cloned, stored only in the Running state, dropped before the worker handle is awaited', l3, 4),
@@ -552,5 +600,6 @@ RULES = [
     Rule('C13.L10', 'a resumable maintenance loop advances its progress counter past an element whose processing failed', l10, 1),
     Rule('C13.L12', 'the worker skips starting a background task only while one is really running (decided by JoinHandle::is_finished)', l12, 2),
     Rule('C13.L13', 'filters of different shape are never merged on the worker path (C10.B10 instances: the merge would panic inside the worker)', l13, 2),
+    Rule('C13.L14', 'a state transition of the observer never drops a Running state (its Sender) on a returning path', l14, 1),
     Rule('C13.L8', 'request-pending / in-progress flags are released on every path of their handler (C12.S8 instances)', l8, 1),
 ]
